@@ -533,6 +533,38 @@ var rules = []rule{
 		m["verificationMethod"] = []any{vms(m)[0], vm}
 		replaceRef(m, old.(string), k2.kid(other))
 	}},
+	// ids that merely START with the document's DID: another DID whose text extends it, or the DID followed by a path / query
+	{name: "vm-id-did-text-extension", mut: func(m map[string]any, self, _ did.DID, _, k2 *key) {
+		vm := cloneMap(vms(m)[1])
+		old := vm["id"]
+		vm["id"] = self.String() + "x#" + k2.frag
+		m["verificationMethod"] = []any{vms(m)[0], vm}
+		replaceRef(m, old.(string), vm["id"].(string))
+	}},
+	{name: "vm-id-did-with-path", mut: func(m map[string]any, self, _ did.DID, _, k2 *key) {
+		vm := cloneMap(vms(m)[1])
+		old := vm["id"]
+		vm["id"] = self.String() + "/path#" + k2.frag
+		m["verificationMethod"] = []any{vms(m)[0], vm}
+		replaceRef(m, old.(string), vm["id"].(string))
+	}},
+	{name: "vm-id-did-with-query", mut: func(m map[string]any, self, _ did.DID, _, k2 *key) {
+		vm := cloneMap(vms(m)[1])
+		old := vm["id"]
+		vm["id"] = self.String() + "?versionId=1#" + k2.frag
+		m["verificationMethod"] = []any{vms(m)[0], vm}
+		replaceRef(m, old.(string), vm["id"].(string))
+	}},
+	{name: "service-id-did-text-extension", mut: func(m map[string]any, self, _ did.DID, _, _ *key) {
+		sv := cloneMap(svcs(m)[1])
+		sv["id"] = self.String() + "x#svc"
+		m["service"] = []any{svcs(m)[0], sv}
+	}},
+	{name: "service-id-did-with-path", mut: func(m map[string]any, self, _ did.DID, _, _ *key) {
+		sv := cloneMap(svcs(m)[1])
+		sv["id"] = self.String() + "/path#svc"
+		m["service"] = []any{svcs(m)[0], sv}
+	}},
 	{name: "vm-id-duplicate", mut: func(m map[string]any, _, _ did.DID, _, _ *key) {
 		m["verificationMethod"] = append(vms(m), cloneMap(vms(m)[1]))
 	}},
